@@ -105,6 +105,11 @@ var c38Mutations = []c38Mutation{
 			f.ModifyOrAddTagAt(b6.Tag{Key: b6.PathTag, Value: b6.NewPointExpressionFromLatLng(wm.E7(515000000, -1000000))}, 0)
 		}
 	}},
+	{"path-expressions-element", "g", func(f ingest.Feature, r *core.R) {
+		if es, ok := f.Get(b6.PathTag).Value.AnyExpression.(b6.Expressions); ok && len(es) > 0 {
+			es[0] = b6.PointExpression(wm.E7(515000000, -1000000))
+		}
+	}},
 	{"MergeFrom", "garc", func(f ingest.Feature, r *core.R) {
 		switch f := f.(type) {
 		case *ingest.GenericFeature:
